@@ -260,6 +260,8 @@ class Externals:
             # extent = min(size, maxlen+1) <= size ; it is enough to show the smaller of the two fits
             ok = False
             what = 'snprintf writes min(n, len+1) bytes at %r' % (dst,)
+            if isinstance(dst, Ptr) and dst.region in st.regions:
+                self.I.hooks.on_store(st, st.regions[dst.region], dst.off, None, None, ins)
             if isinstance(dst, Ptr) and isinstance(size, Int):
                 okb, reg = self.mem.in_bounds(st, dst, size.a)
                 ok = okb
@@ -271,6 +273,5 @@ class Externals:
                     ok = S.entails_eq0(size.a)
                 if ok and reg is not None:
                     self.ops.oblige(st, 'REGION-W', not reg.readonly, ins, 'snprintf destination region %s writable' % reg.name)
-                    self.I.hooks.on_store(st, reg, dst.off, None, None, ins)
             self.ops.oblige(st, 'MEM-W', ok, ins, what, self.mem.describe(st, dst, size.a if isinstance(size, Int) else '?'))
         return r
